@@ -1883,7 +1883,14 @@ func wireStr(w *xmltree.Stream) string {
 	return sb.String()
 }
 
-func run(c *core.Case) { Run(c, gen(c.Rand)) }
+func run(c *core.Case) {
+	// one case in 400: several sessions served at once (multi.go)
+	if c.Index%400 == 7 {
+		runMulti(c)
+		return
+	}
+	Run(c, gen(c.Rand))
+}
 
 // ---------------------------------------------------------------------------
 
@@ -1978,7 +1985,7 @@ func Prop() *core.Prop {
 			"conc_stalled_reply_write_was_blocked",
 			"session_websocket", "ws_answered_by_library", "mode_serve-nil", "serve_nil_answered_by_library",
 			"handler_reply_with_xmlns_attr_first", "handler_reply_with_xmlns_attr_middle", "handler_reply_with_xmlns_attr_last", "handler_element_from_xml_decoder",
-			"app_sends", "app_tracked_requests_whose_transmission_failed", "app_send_unbalanced-eof", "app_send_reader-error", "app_send_balanced", "request_after_unbalanced_app_send",
+			"multi_session_cases", "multi_session_requests_answered", "write_faults_reached", "app_sends", "app_tracked_requests_whose_transmission_failed", "app_send_unbalanced-eof", "app_send_reader-error", "app_send_balanced", "request_after_unbalanced_app_send",
 			"handler_wrote_reply_without_id_to_request", "handler_wrote_reply-noid_bare", "handler_wrote_reply-noid_mux", "handler_wrote_reply-emptyid_bare", "handler_wrote_reply-emptyid_mux",
 			"handler_abandoned_reply", "handler_abandoned_other_element", "answered_by_handler_after_an_abandoned_element",
 			"incoming_qualified_attr_own_ns", "incoming_qualified_attr_foreign_ns",
